@@ -752,9 +752,51 @@ def run(ctx):
         'are outside this check)',
         'filters are not checked below the microversion that introduced them (C14)',
     ]
+    if not ctx.new_violations():
+        conc_part(ctx)
+
+
+def conc_part(ctx):
+    from vp import readcons
+    from vp.names import P as PP
+    q = {
+        'in_tree=P1': 'in_tree=' + PP(1),
+        'in_tree=P3': 'in_tree=' + PP(3),
+        'in_tree=P2&resources=DISK_GB:1': 'in_tree=%s&resources=DISK_GB:1' % PP(2),
+        'resources=VCPU:1,DISK_GB:1': 'resources=VCPU:1,DISK_GB:1',
+        'resources=VCPU:2': 'resources=VCPU:2',
+        'required=T1': 'required=' + readcons.T1,
+        'required=T1&resources=VCPU:1': 'required=%s&resources=VCPU:1' % readcons.T1,
+        'member_of=A1': 'member_of=' + AG_A,
+        'member_of=A1&resources=DISK_GB:1': 'member_of=%s&resources=DISK_GB:1' % AG_A,
+        'name=rp4': 'name=' + pname(4),
+    }
+    pairs = [('in_tree=P1', 'PUT P1 under P2'), ('in_tree=P3', 'PUT P3 to top'),
+             ('in_tree=P2&resources=DISK_GB:1', 'PUT P3 to top'),
+             ('in_tree=P2&resources=DISK_GB:1', 'PUT P1 under P2'),
+             ('resources=VCPU:1,DISK_GB:1', 'reshaper: VCPU leaves P1, DISK_GB arrives on P2'),
+             ('resources=VCPU:1,DISK_GB:1', 'PUT inventories P1 (DISK_GB only)'),
+             ('resources=VCPU:2', 'PUT allocations K1 (3 VCPU of P1)'),
+             ('required=T1', 'PUT traits P1 (T1 -> T2)'),
+             ('required=T1&resources=VCPU:1', 'PUT traits P2 (+T1)'),
+             ('member_of=A1', 'PUT aggregates P1 (A1 -> A2)'),
+             ('member_of=A1&resources=DISK_GB:1', 'PUT aggregates P4 (+A1)'),
+             ('name=rp4', 'DELETE P4'), ('in_tree=P1', 'POST P5 under P1')]
+    triples = [('resources=VCPU:1,DISK_GB:1', 'PUT inventories P1 (DISK_GB only)',
+                'PUT inventories P2 (+DISK_GB)'),
+               ('required=T1&resources=VCPU:1', 'PUT traits P1 (T1 -> T2)', 'PUT traits P2 (+T1)'),
+               ('member_of=A1&resources=DISK_GB:1', 'PUT aggregates P1 (A1 -> A2)',
+                'PUT aggregates P4 (+A1)')]
+    flat_triples = [('resources=VCPU:1,DISK_GB:1', 'POST P5 under P1',
+                     'PUT inventories P5 (VCPU + DISK_GB)')]
+    sc = readcons.scenarios('/resource_providers', q, pairs, triples, (), flat_triples)
+    readcons.run_part(ctx, 'C13', sc)
 
 
 def replay(ctx, data):
+    if data.get('engine') == 'conc':
+        from vp import explore_conc
+        return explore_conc.replay(ctx, data)
     from vp.boot import Harness
     from vp.check import HarnessError
     from vp.snapshot import Dump
